@@ -724,7 +724,9 @@ class Searcher(object):
                                              order=collapse_order)
 
         # Filtering wraps last so it sees the docs first
-        if filter or mask:
+        # (Test against None: an empty set or an empty Results object is a
+        # valid filter that matches nothing)
+        if filter is not None or mask is not None:
             c = collectors.FilterCollector(c, filter, mask)
         return c
 
